@@ -95,6 +95,27 @@ pub fn debug_cmd(args: &[String]) {
             let cfg = crate::core::exec::FrontCfg::default_cfg();
             println!("{:?}", c20::judge_lib(&pc.source, &dep, "libx1", &cfg, false).map(|(o, n)| (o.diagnostics, o.sierra.map(|s| s.len()), n)));
         }
+        Some("elide") => {
+            // dbg elide <file>: every store elision of `main(100, 7)`.
+            let src = std::fs::read_to_string(&args[1]).unwrap();
+            let cfg = crate::core::exec::FrontCfg::default_cfg();
+            let db = cfg.new_db(crate::core::cairo::Plugins::Default);
+            let meta = crate::core::exec::MetaCfg::linear();
+            let c = crate::core::exec::compile_source(&db, "test", &src, meta).unwrap();
+            let f = c.runner.find_function("::main").unwrap().clone();
+            let a = vec![cairo_lang_runner::Arg::Value(100.into()), cairo_lang_runner::Arg::Value(7.into())];
+            let e = crate::core::exec::run(&c, &f, a.clone(), Some(execs::BIG_GAS)).unwrap();
+            let honest = crate::oracle::value::normalize(&c, &f, &e);
+            println!("honest {honest:?}\n{}", c.builder.sierra_program());
+            for idx in c17::store_positions(c.builder.sierra_program()) {
+                let r = match c17::judge_elision(&c, &f, &a, Some(execs::BIG_GAS), meta, &honest, idx) {
+                    c17::Elision::Rejected => "rejected".to_string(),
+                    c17::Elision::Same => "same".to_string(),
+                    c17::Elision::Differs(s, w) => format!("{s}: {w}"),
+                };
+                println!("elide {idx}: {r}");
+            }
+        }
         Some("c14felts") => {
             c14::debug_felts();
         }
